@@ -122,6 +122,16 @@ def trig_weighted_uncrossed_basic(case):
                for i in ir_ids.design_ids(case["block"]))
 
 
+def trig_weighted_uncrossed_with_dependent(case):
+    """a weighted non-derived factor outside every crossing on which some derived factor of the design depends"""
+    F = _factors(case)
+    crossed = set(i for X in _crossings(case["block"]) for i in X)
+    import ir_ids
+    ids = ir_ids.design_ids(case["block"])
+    wu = [i for i in ids if F[i - 1]["kind"] == "b" and any(w > 1 for w in F[i - 1]["w"]) and i not in crossed]
+    return any(F[j - 1]["kind"] == "d" and any(g in wu for g in F[j - 1]["deps"]) for j in ids)
+
+
 def trig_has_minimum_trials(case):
     return _has_con(case, "MinimumTrials")
 
@@ -145,11 +155,23 @@ def trig_derived_of_complex(case):
     return False
 
 
+def trig_derived_of_simple_derived(case):
+    """a factor derived from a within-trial derived factor (width 1, start 0)"""
+    F = _factors(case)
+    for f in F:
+        if f["kind"] == "d" and any(F[g - 1]["kind"] == "d" and F[g - 1]["width"] == 1 and F[g - 1]["start"] == 0
+                                    for g in f["deps"]):
+            return True
+    return False
+
+
 def trig_any(case):
     return True
 
 
 TRIGGERS = {
+    "weighted_uncrossed_with_dependent": trig_weighted_uncrossed_with_dependent,
+    "derived_of_simple_derived": trig_derived_of_simple_derived,
     "crossed_within_of_derived": trig_crossed_within_of_derived,
     "exclude_derived_with_derived_dep": trig_exclude_derived_with_derived_dep,
     "has_exactly_k_in_a_row": trig_has_exactly_k_in_a_row,
